@@ -10,6 +10,7 @@ import Lungo.Proofs.ConcAll
 import Lungo.Proofs.ConcUnshared
 import Lungo.Proofs.ConcDeadlock
 import Lungo.Proofs.ConcClosed
+import Lungo.Proofs.ConcNoDeadlock
 namespace Lungo.Conc.C16
 open Lungo.Conc
 
@@ -201,6 +202,31 @@ theorem closed_begin_returns_closed {n : Nat} {s s' : State} {a : ActorId} (_h :
   subst hs
   simp [State.put, Local.back, Eng.unlock]
 
+/-- `no_deadlock` (configuration: unshared sessions): in every reachable state in which some call is
+    unfinished, some step is enabled that is neither a fault (cancel, store failure/panic, callback
+    error/panic), nor the one-minute acquire timeout, nor a new call, nor a ticker event — unless
+    the engine is alive, every actor is idle or parked at the token acquire, and the token is held
+    by a transaction that a client deliberately keeps open (a session's transaction or a direct
+    handle).  (In that last case the 1-minute acquire timeout of `Begin` still ends every waiter.) -/
+theorem no_deadlock {n : Nat} {s : State} (h : ReachableU n s)
+    (hun : ∃ a, (s.loc a).pc ≠ .idle ∧ (s.loc a).pc ≠ .xWait ∧ (s.loc a).pc ≠ .xExited) :
+    CanStep s ∨ TokenWait s :=
+  no_deadlock_aux h hun
+
+/-- … and `no_deadlock` is FALSE for `Reachable` (a session shared by two actors): `deadState`. -/
+theorem no_deadlock_fails_shared :
+    ∃ s, Reachable 2 s ∧ (∃ a, (s.loc a).pc ≠ .idle ∧ (s.loc a).pc ≠ .xWait ∧ (s.loc a).pc ≠ .xExited) ∧
+      ¬ CanStep s ∧ ¬ TokenWait s := by
+  refine ⟨deadState, dead_reachable, ⟨1, ?_⟩, ?_, ?_⟩
+  · rw [dead_facts.2.2.2.1]; simp
+  · rintro ⟨a, c, _, hs⟩
+    rw [dead_stuck a c] at hs
+    cases hs
+  · rintro ⟨_, _, _, hp⟩
+    have := hp 1
+    rw [dead_facts.2.2.2.1] at this
+    simp [Parked] at this
+
 /-! ### non-vacuity -/
 
 /-- one auto-commit write (acquire, callback, store, release, deferred abort) by actor 1 -/
@@ -237,6 +263,13 @@ def closeRun : List (ActorId × Choice) :=
 example : ((run (init 2) closeRun).map fun s =>
     (s.eng.alive, (s.loc 2).pc, (s.loc 2).res, (s.loc 1).pc, (s.loc 0).pc, s.eng.mutex)) =
     some (false, .idle, .err .closed, .idle, .xExited, none) := by rfl
+
+/-- the `TokenWait` disjunct of `no_deadlock` is real: a session transaction left open and a writer
+    parked at the acquire -/
+example : ((run (init 2) (sessOpen ++ [(2, .call (.useTx true none)), (2, .go), (2, .go)])).map fun s =>
+    (s.eng.alive, s.eng.token, s.eng.txn, (s.sess 1).txn, (s.loc 1).pc, (s.loc 2).pc,
+      (step s 2 .tok).isSome, (step s 2 .timeout).isSome)) =
+    some (true, 0, some 0, some 0, .idle, .bAcquire, false, true) := by rfl
 
 end Lungo.Conc.C16
 
